@@ -1,6 +1,7 @@
 //! Correspondence harness: runs the real rs-tftpd code on line-protocol cases.
 mod capture;
 mod codec;
+mod server;
 mod util;
 mod worker;
 
@@ -15,8 +16,15 @@ fn dispatch(line: &str) -> String {
     match toks[0] {
         "dec" | "enc" | "opc" | "erc" | "optname" | "utf8" | "pusize" | "todec" => codec::line(&toks),
         "win" => worker::win_line(&toks),
-        "snd" => worker::snd_line(&toks),
+        "snd" => {
+            tftpd::verif::set_virtual(true);
+            let r = worker::snd_line(&toks);
+            tftpd::verif::set_virtual(false);
+            r
+        }
         "rcv" => worker::rcv_line(&toks),
+        "req" => server::req_line(&toks),
+        "storm" => server::storm_line(&toks),
         _ => "bad-op".to_string(),
     }
 }
@@ -29,7 +37,6 @@ fn main() {
     }
     // silence the panic messages of caught panics
     std::panic::set_hook(Box::new(|_| {}));
-    tftpd::verif::set_virtual(true);
     std::fs::create_dir_all(util::scratch()).unwrap();
     capture::init(&util::scratch());
     let input = BufReader::new(File::open(&args[2]).expect("cases"));
@@ -41,6 +48,7 @@ fn main() {
         }
         let res = std::panic::catch_unwind(|| dispatch(&line)).unwrap_or_else(|_| "panic".to_string());
         writeln!(out, "{}", res).unwrap();
+        out.flush().unwrap();
     }
     let _ = std::fs::remove_dir_all(util::scratch());
 }
